@@ -123,7 +123,7 @@ impl Farm {
             work,
             free: Mutex::new((0..workers).rev().collect()),
             counter: AtomicU64::new(0),
-            run_timeout: Duration::from_secs(20),
+            run_timeout: Duration::from_secs(std::env::var("VERIF_RUN_TIMEOUT_S").ok().and_then(|s| s.parse().ok()).unwrap_or(60)),
             build_timeout: Duration::from_secs(600),
             pool,
             keep_projects: false,
